@@ -570,7 +570,16 @@ impl Parser for ParameterDeclaration {
 
         match this {
             Some(Self::Valid { .. }) => {
-                affected(this, alt((|input| parse_valid(this, input), parse_error)))(input)
+                // if re-using the old parameter fails, parse a fresh one
+                // before falling back to the error alternative
+                affected(
+                    this,
+                    alt((
+                        |input| parse_valid(this, input),
+                        |input| parse_valid(None, input),
+                        parse_error,
+                    )),
+                )(input)
             }
             _ => alt((|input| parse_valid(None, input), parse_error))(input),
         }
@@ -621,7 +630,13 @@ impl Parser for Argument {
         let (input, expr) = match this {
             Some(Self::Valid(expr)) => affected(
                 Some(expr),
-                alt((|input| parse_valid(Some(expr), input), parse_error)),
+                // if re-using the old argument fails, parse a fresh one
+                // before falling back to the error alternative
+                alt((
+                    |input| parse_valid(Some(expr), input),
+                    |input| parse_valid(None, input),
+                    parse_error,
+                )),
             )(input)?,
             _ => alt((|input| parse_valid(None, input), parse_error))(input)?,
         };
